@@ -115,8 +115,18 @@ fn call_s() -> BoxedStrategy<Call> {
 /// INT 10h AH=13h; `top`: only segments FFFEh/FFFFh.  BP up to 63 so that with ES=FFFFh the text starts at or beyond
 /// 2^20 (ES:BP = FFFF:0010h is physical address 0), not only crosses it
 fn putstr_s(top: bool) -> BoxedStrategy<Call> {
-    let seg = if top { prop_oneof![1 => Just(0xFFFFu16), 1 => Just(0xFFFEu16)].boxed() } else { prop_oneof![2 => 0x9000u16..0xE000, 1 => Just(0xFFFFu16), 1 => Just(0xFFFEu16)].boxed() };
-    (seg, prop_oneof![3 => 0u16..16, 2 => 16u16..64], 0u8..30, proptest::collection::vec(out_char(), 1..40)).prop_map(|(seg, bp, dl, text)| Call::PutStr { seg, bp, dl, text }).boxed()
+    let seg = if top { prop_oneof![2 => Just(0xFFFFu16), 2 => Just(0xFFFEu16), 1 => Just(0xF000u16), 1 => Just(0xEFFFu16)].boxed() } else { prop_oneof![4 => 0x9000u16..0xE000, 2 => Just(0xFFFFu16), 2 => Just(0xFFFEu16), 1 => Just(0xF000u16), 1 => Just(0xEFFFu16)].boxed() };
+    (seg, prop_oneof![3 => 0u16..16, 2 => 16u16..64], 0u8..30, proptest::collection::vec(out_char(), 1..40), any::<u8>())
+        .prop_map(|(seg, bp, dl, text, k)| {
+            // ES = F000h / EFFFh: BP so large that the text, addressed linearly from ES*16+BP, crosses 2^20
+            let bp = match seg {
+                0xF000 => (0x10000u32 - 1 - (k as u32 % text.len() as u32)) as u16,
+                0xEFFF => (0x10010u32 - 17 - (k as u32 % 8)) as u16,
+                _ => bp,
+            };
+            Call::PutStr { seg, bp, dl, text }
+        })
+        .boxed()
 }
 
 /// cases for C09's L3 part: every service pointed at the last bytes of the address space
@@ -254,19 +264,44 @@ pub fn build(c: &Case18) -> Built {
                 // keep the text clear of buffers placed at the top of (or wrapping around) the address space
                 let high_buf = c.calls.iter().any(|(x, _)| matches!(x, Call::BufIn { seg, .. } if *seg >= 0xF000));
                 // ... and of another text up there
-                let high_taken = used_segs.iter().any(|u| *u >= 0xFFFE);
-                let mut sg = if (high_buf || high_taken) && *seg >= 0xFFFE { 0xA000 } else { *seg };
+                let high_taken = used_segs.iter().any(|u| *u >= 0xEFFF);
+                let mut sg = if (high_buf || high_taken) && *seg >= 0xEFFF { 0xA000 } else { *seg };
                 // texts are up to 16 + 40 bytes long: keep the segments at least 16 paragraphs apart
-                while sg < 0xFFFE && used_segs.iter().any(|u| (*u as i32 - sg as i32).abs() < 0x10) {
+                while sg < 0xEFFF && used_segs.iter().any(|u| (*u as i32 - sg as i32).abs() < 0x10) {
                     sg = 0x9000 + (sg.wrapping_add(0x0123) % 0x5000);
                 }
                 used_segs.push(sg);
-                data.push(DataDecl::Set(sg));
-                if *bp > 0 {
-                    data.push(DataDecl::Item { label: None, word: false, kind: DataKind::Zeros(*bp) });
-                }
-                for b in text {
-                    data.push(DataDecl::Item { label: None, word: false, kind: DataKind::Val(*b as u16) });
+                // a text moved to another segment keeps a small BP (the large ones only make sense with ES = F000h / EFFFh)
+                let bp_eff: u16 = if sg != *seg && *bp > 0x100 { *bp & 0x3F } else { *bp };
+                let bp = &bp_eff;
+                if sg == 0xF000 || sg == 0xEFFF {
+                    // placed by physical address: the part below 2^20 in the last paragraphs, the rest from address 0
+                    let phys = sg as u32 * 16 + *bp as u32;
+                    let mb = 1u32 << 20;
+                    let first = ((mb - phys.min(mb)) as usize).min(text.len());
+                    if first > 0 {
+                        data.push(DataDecl::Set((phys >> 4) as u16));
+                        if phys & 15 > 0 {
+                            data.push(DataDecl::Item { label: None, word: false, kind: DataKind::Zeros((phys & 15) as u16) });
+                        }
+                        for b in &text[..first] {
+                            data.push(DataDecl::Item { label: None, word: false, kind: DataKind::Val(*b as u16) });
+                        }
+                    }
+                    if first < text.len() {
+                        data.push(DataDecl::Set(0));
+                        for b in &text[first..] {
+                            data.push(DataDecl::Item { label: None, word: false, kind: DataKind::Val(*b as u16) });
+                        }
+                    }
+                } else {
+                    data.push(DataDecl::Set(sg));
+                    if *bp > 0 {
+                        data.push(DataDecl::Item { label: None, word: false, kind: DataKind::Zeros(*bp) });
+                    }
+                    for b in text {
+                        data.push(DataDecl::Item { label: None, word: false, kind: DataKind::Val(*b as u16) });
+                    }
                 }
                 code.push(mov16(R16::AX, sg));
                 code.push(movsr(Seg::ES, R16::AX));
@@ -457,9 +492,12 @@ pub fn eval(c: &Case18) -> CaseOutcome {
                     classes.push("c18/string-starts-at-or-beyond-2^20".into());
                 }
                 let high_buf = c.calls.iter().any(|(x, _)| matches!(x, Call::BufIn { seg, .. } if *seg >= 0xF000));
-                if *seg >= 0xFFFE && !high_buf {
+                if *seg >= 0xEFFF && !high_buf {
                     classes.push("c18/string-across-2^20".into());
                     nt = true;
+                }
+                if (*seg == 0xF000 || *seg == 0xEFFF) && !high_buf {
+                    classes.push("c18/string-across-2^20-from-a-segment-below-F001h".into());
                 }
             }
             Call::Unsupported { .. } => classes.push("c18/unsupported".into()),
